@@ -35,10 +35,11 @@ ON = ["errors", "determ"]
 
 def _corrupt(t: dict) -> bool:
     # the error surfaced by run() is not one a task raised in this run (i.e. it was replayed)
-    if t["evs"] and t["evs"][-1].get("outcome") == "error":
-        for e in t["evs"]:
-            if e["ev"] == "finish" and e["ok"] == 0:
-                e["ok"] = 1
+    end = t["evs"][-1] if t["evs"] else {}
+    fails = [e for e in t["evs"] if e["ev"] == "finish" and e["ok"] == 0]
+    if end.get("outcome") == "error" and end.get("etype") != "SchedulerError" and fails:
+        for e in fails:
+            e["ok"] = 1
         return True
     return False
 
